@@ -421,6 +421,17 @@ func (d *Disk) Apply(idx int, ev *Event, norm Norm) (Effect, error) {
 		if of == nil {
 			return eff, nil
 		}
+		if _, apath, _ := fdArg(arg(0)); apath != "" && d.Watched(apath) && apath != of.path {
+			// With several traced threads, a close and the open that reuses
+			// its number can be reported in either order.  strace decoded
+			// the descriptor when the close was entered: if that is not the
+			// file the model has under this number, the number already
+			// belongs to a newer open and the mapping stays.
+			if id, ok := d.ns[apath]; !ok || id != of.ino {
+				eff.Desc = fmt.Sprintf("close %s %s", norm(apath), res())
+				return eff, nil
+			}
+		}
 		eff.Desc = fmt.Sprintf("close %s %s", norm(of.path), res())
 		// The descriptor is released even when close reports an error.
 		delete(d.fds, fd)
